@@ -22,7 +22,7 @@ META = {
         "ptera.transform.ExternalVariableCollector.*", "ptera.transform.transform (info table)", "ptera.selector.Call.problems/verify",
         "ptera.overlay.autotool/_tooler/fits_selector", "ptera.probe.Probe._enter/_install_tooling",
     ],
-    "bounds": {"quick": {"slots": "slot 1: 26 forms x 3 names; slot 2: 26 forms x 2 names; optional extra read", "probed_identifiers": 8},
+    "bounds": {"quick": {"slots": "slot 1: 26 forms x 3 names; slot 2: 10 forms x 2 names; optional extra read", "probed_identifiers": 8},
                "thorough": {"slots": "3 free slots x 26 forms x 3 names", "probed_identifiers": 8}},
     "out_of_scope": ["names that occur only inside nested scopes of f (lambda parameters, comprehension variables, locals of nested "
                      "functions): Python does not report them for f and they are not fresh either -- not asserted",
@@ -157,6 +157,11 @@ def build(case):
             fi = pick(a[2 * j], len(FORMS))
             if j == 0 and f0 is not None:
                 assume(fi == f0)
+            if small and j >= 1:
+                # quick tier: later slots use the forms that interact with an earlier binding of the same name
+                assume(FORMS[fi][1] in ("", "{N}", "{N} = 1", "for {N} in ():\n    pass", "def {N}():\n    pass",
+                                        "class {N}:\n    pass", "global {N}\n{N} = 1", "_r = {N}", "def _h():\n    return {N}",
+                                        "_k = [{N} for {N} in ()]"))
             if special and j >= 1:
                 assume(fi == 0)  # meta-variables / the dotted-import name do not depend on the other slots
             if special and j == 0 and probed == "xml":
